@@ -1367,6 +1367,7 @@ def _fmt_argument(E, st, fid, t, args, dest_ty):
     formatted (by user Display/Debug code) -- recorded in the path log, otherwise an opaque call of core"""
     if args:
         st.log('fmtarg', E.rtag(st, args[0]))
+        E.fmt_note(st, E.rtag(st, args[0]))
     return E.opaque_call(st, fid, t, args, dest_ty)
 
 
@@ -1374,6 +1375,22 @@ for _n in ('new_display', 'new_debug', 'new_lower_hex', 'new_upper_hex', 'new_lo
            'new_binary', 'new_pointer'):
     REGISTRY["core::fmt::rt::Argument::<'_>::" + _n] = _fmt_argument
     MODEL_DOC["core::fmt::rt::Argument::<'_>::" + _n] = 'opaque; the value to be formatted is recorded in the path log'
+
+
+def _fmt_entry(E, st, fid, t, args, dest_ty):
+    """DebugList/DebugSet::entry(&item), DebugMap::entry(&k, &v) / key(&k) / value(&v): the items are formatted by
+    their Debug impls (user code); which values those are is recorded in the path log"""
+    for a in args[1:]:
+        st.log('fmtarg', E.rtag(st, a))
+        E.fmt_note(st, E.rtag(st, a))
+    return E.opaque_call(st, fid, t, args, dest_ty)
+
+
+for _n in ("core::fmt::builders::DebugList::<'a, 'b>::entry", "core::fmt::builders::DebugSet::<'a, 'b>::entry",
+           "core::fmt::builders::DebugMap::<'a, 'b>::entry", "core::fmt::builders::DebugMap::<'a, 'b>::key",
+           "core::fmt::builders::DebugMap::<'a, 'b>::value", "core::fmt::builders::DebugTuple::<'a, 'b>::field"):
+    REGISTRY[_n] = _fmt_entry
+    MODEL_DOC[_n] = 'opaque; the value(s) to be formatted are recorded in the path log'
 
 
 def _entries(E, st, fid, t, args, dest_ty):
@@ -1401,6 +1418,7 @@ def _entries(E, st, fid, t, args, dest_ty):
         out = []
         s.log('user', 'fmt', (E.tag_of(item),))
         s.log('fmtarg', E.rtag(s, item))
+        E.fmt_note(s, E.rtag(s, item))
         E.stats['user_calls'] += 1
         for u in escape(E, s, 'user', 'Debug::fmt'):
             out.append(('done',) + u)
